@@ -511,7 +511,11 @@ class CallsMixin:
             from .program import normfn
             callee = normfn(fnv['name'])
         else:
-            return 'all' if not self.closure_static(fr, fnv) else self.closure_writes(st, fr, fnv, body)
+            if self.closure_static(fr, fnv):
+                return self.closure_writes(st, fr, fnv, body)
+            if self.cx.contract.opts.get('callbacks') == 'pure':
+                return []   # same assumption as at the call itself (listed in the evidence)
+            return 'all'
         if callee in ERASED_CALLS:
             return []
         con = self.prog.cs.funcs.get(callee)
